@@ -222,9 +222,10 @@ def classify(diags, attr):
                          "rendered": d.get("rendered", ""), "unlabelled": not labels})
     # An unlabelled failure (overflow, decreases, un-named invariant) next to LABELLED failures of the same function is
     # most likely a consequence of those: it does not by itself speak for the function's primary properties.
-    labelled_fns = set(f["fn"] for f in failures if not f["unlabelled"])
+    # (and even on its own it names no property: the functions' properties are then handled as "affected" by driver.py -
+    #  violation only with a failing history on the real crate, undecided otherwise)
     for f in failures:
-        if f["unlabelled"] and f["fn"] in labelled_fns:
+        if f["unlabelled"]:
             f["props"] = []
     return failures, compile_errors, rl
 
